@@ -78,3 +78,10 @@ Theorem C09_gives_up_terminates : forall k l s,
               Forall (fun r => r = RAct (TerminateChildren [] 0)) pre.
 Proof. exact shutdown_terminates. Qed.
 Print Assumptions C09_gives_up_terminates.
+
+(* every call of the intensity check leaves a mark on the record, whatever it prunes: the restart it was called
+   for is on the list it returns (this is what the monitor spec_restart_counted looks for on the real machines) *)
+Theorem C09_check_records : forall rs now period intensity,
+  0 <= period -> fst (check rs now period intensity) <> rs.
+Proof. exact check_records. Qed.
+Print Assumptions C09_check_records.
